@@ -4,7 +4,7 @@
    is rounded is the parameter [rz] (instantiated with the flag the generator reads off the source).
    Over the reals; the generated conversion (Gen/ConfigConv.v, from src/spdc/config/*.rs) is proved equal to this. *)
 From Coq Require Import Reals String List.
-From SpdVerif Require Import Base.Rx Base.NumOps Spec.ConfigSpec Model.ConfigTypes.
+From SpdVerif Require Import Base.Rx Base.CfgNumOps Spec.ConfigSpec Model.ConfigTypes.
 Local Open Scope R_scope.
 
 Definition round4 (x : R) : R := round_half_away (x * 10000) / 10000.
